@@ -34,7 +34,7 @@ void splinetable<Alloc>::permuteDimensions(const std::vector<size_t>& permutatio
 	std::unique_ptr<uint64_t[]> t_strides(new uint64_t[ndim]);
 	std::unique_ptr<uint64_t[]> t_nknots(new uint64_t[ndim]);
 	std::unique_ptr<double_ptr[]> t_knots(new double_ptr[ndim]);
-	std::unique_ptr<double*[],void(*)(double**)> t_extents(new double*[ndim],
+	std::unique_ptr<double*[],void(*)(double**)> t_extents(new double*[ndim](),
 		[](double** p){
 			if(p && p[0])
 				delete[] p[0];
